@@ -485,7 +485,12 @@ type virtLoader struct {
 	w    *World
 	disk int
 	rel  bool
+	// ownMiss: report a missing name with the loader's own error type instead of one that
+	// wraps fs.ErrNotExist (loaders are free to do that)
+	ownMiss bool
 }
+
+var errVirtMiss = errors.New("virtual loader: no template by that name")
 
 func (l *virtLoader) Abs(base, name string) string {
 	if strings.HasPrefix(name, "/") || !l.rel {
@@ -497,6 +502,9 @@ func (l *virtLoader) Abs(base, name string) string {
 func (l *virtLoader) Get(p string) (io.Reader, error) {
 	f, err := l.w.open(l.disk, p)
 	if err != nil {
+		if l.ownMiss && errors.Is(err, fs.ErrNotExist) {
+			return nil, errVirtMiss
+		}
 		return nil, err
 	}
 	return f, nil
@@ -529,6 +537,7 @@ func (l *recLoader) Get(p string) (io.Reader, error) {
 // LoaderSpec describes one loader of a set.
 type LoaderSpec struct {
 	Kind    string `json:"kind"` // "fs", "http", "httpbase", "virt", "virtrel", "local", "localbase"
+	OwnMiss bool   `json:"own_miss_error,omitempty"`
 	Disk    int    `json:"disk"`
 	BaseDir string `json:"basedir,omitempty"`
 }
@@ -543,9 +552,9 @@ func (w *World) MakeLoader(id int, ls LoaderSpec) pongo2.TemplateLoader {
 	case "httpbase":
 		inner = pongo2.MustNewHttpFileSystemLoader(simHTTPFS{w, ls.Disk}, ls.BaseDir)
 	case "virt":
-		inner = &virtLoader{w: w, disk: ls.Disk}
+		inner = &virtLoader{w: w, disk: ls.Disk, ownMiss: ls.OwnMiss}
 	case "virtrel":
-		inner = &virtLoader{w: w, disk: ls.Disk, rel: true}
+		inner = &virtLoader{w: w, disk: ls.Disk, rel: true, ownMiss: ls.OwnMiss}
 	case "local":
 		inner = pongo2.MustNewLocalFileSystemLoader("")
 	case "localbase":
